@@ -46,7 +46,7 @@ var schemaApplSlots = [][]applForm{
 	{{"properties", "propA"}, {"properties", "propB"}, {"properties", "propAB"}},
 	{{"allOf", "list1"}, {"allOf", "list2"}},
 	{{"anyOf", "list1"}, {"anyOf", "list2"}},
-	{{"oneOf", "list1"}, {"oneOf", "list2"}},
+	{{"oneOf", "list1"}, {"oneOf", "list2"}, {"oneOf", "list3"}},
 	{{"not", "one"}},
 }
 
@@ -54,6 +54,8 @@ func (f applForm) arity() int {
 	switch f.shape {
 	case "list2", "propAB", "propAB-ro":
 		return 2
+	case "list3":
+		return 3
 	}
 	return 1
 }
@@ -157,6 +159,11 @@ func (al Alphabet) Gen(x *explore.X, budget *int, depth int) map[string]any {
 			a := sub()
 			b := sub()
 			s[f.key] = []any{a, b}
+		case "list3":
+			a := sub()
+			b := sub()
+			c := sub()
+			s[f.key] = []any{a, b, c}
 		case "propA":
 			s[f.key] = map[string]any{"a": sub()}
 		case "propB":
